@@ -150,6 +150,28 @@ func c05Stream(c *fCase) (*core.Stream, error) {
 				d["DecodeParms"] = core.Array{core.Null{}, core.Dict{"Predictor": core.Int(11), "Columns": core.Int(len(x))}}
 			}
 			data = goA85(pdfw.Deflate(enc))
+		case "Fl+Fl:dict-null", "Fl+Fl:short":
+			inner := pdfw.Deflate(x)
+			d["Filter"] = names("FlateDecode", "Fl")
+			pd := core.Dict{"Predictor": core.Int(11), "Columns": core.Int(len(inner))}
+			if c.Opt == "Fl+Fl:short" {
+				d["DecodeParms"] = core.Array{pd}
+			} else {
+				d["DecodeParms"] = core.Array{pd, core.Null{}}
+			}
+			data = pdfw.Deflate(goPngEnc(inner, []int{1}, len(inner), 1))
+		case "Fl+Fl:null-dict":
+			d["Filter"] = names("FlateDecode", "FlateDecode")
+			if len(x) > 0 {
+				d["DecodeParms"] = core.Array{core.Null{}, core.Dict{"Predictor": core.Int(11), "Columns": core.Int(len(x))}}
+			}
+			data = pdfw.Deflate(pdfw.Deflate(enc))
+		case "AHx+Fl+Fl:null-dict-null":
+			// the middle stage has the predictor: inner = deflate(x); middle = deflate(pngenc(inner)); outer = hex
+			inner := pdfw.Deflate(x)
+			d["Filter"] = names("AHx", "Fl", "FlateDecode")
+			d["DecodeParms"] = core.Array{core.Null{}, core.Dict{"Predictor": core.Int(11), "Columns": core.Int(len(inner))}, core.Null{}}
+			data = goHex(pdfw.Deflate(goPngEnc(inner, []int{1}, len(inner), 1)))
 		default:
 			return nil, fmt.Errorf("unknown chain %s", c.Opt)
 		}
